@@ -36,6 +36,7 @@ fn main() {
     match id.as_str() {
         "C08" => corr::c08::run(&mut ctx),
         "C10" => corr::c10::run(&mut ctx),
+        "C11" => corr::c11::run(&mut ctx),
         "C12" => corr::c12::run(&mut ctx),
         "C13" => corr::c13::run(&mut ctx),
         "C14" => corr::c14::run(&mut ctx),
